@@ -116,7 +116,13 @@ CLAIMED = {
               "parity-group edge exactly once, derived gates = layout gates with both qubits involved, index maps bijective and consistent.",
               "Extra parks and acceptance of a whole layer are not judged (not claimed).",
               "DESIGN.md section 4 / C17"),
-    "C18": None,
+    "C18": _c("generated programs x channel orders x label maps x duration contexts; placement oracle from the reference scheduler; before/after + twin differential for side effects",
+              "Exploration: programs over the 23 drawable kinds (and all 26 for no-raise / no-side-effect), built and unrolled, are drawn with generated channel orders "
+              "(permutations, prefixes, unknown ids), label maps, compact / full mode and outer global-duration overrides; the description plot_circuit really builds "
+              "is intercepted and its rows, labels, width and the multiset of (left edge, rows) of the draw components are compared with start times computed by the "
+              "reference model under the drawing's durations; the circuit's fingerprint must be unchanged (vs before and vs a never-plotted twin), the duration lookup restored, unknown ids rejected, no figure leaked.",
+              "Artists are built but not rasterised; kinds the drawing silently skips (generic two-qubit operations) are only checked for no-raise / no-side-effect.",
+              "DESIGN.md section 4 / C18"),
     "C19": _c(
         "exhaustive enumeration of the 36x36 channel-identifier grid + Hypothesis pairs/triples/sequences against a transcribed matching oracle",
         "Exploration: the finite grid of channel identifiers (9 qubit ids x 4 channels, all ordered pairs) is enumerated completely; "
